@@ -134,7 +134,7 @@ async fn run_reader(mut s: SendableRecordBatchStream, plan: ReaderPlan) -> (Vec<
                 }
             }
         }
-        match tokio::time::timeout(Duration::from_secs(30), s.next()).await {
+        match tokio::time::timeout(Duration::from_secs(120), s.next()).await {
             Err(_) => return (out, ReadEnd::Timeout),
             Ok(None) => return (out, ReadEnd::Eof),
             Ok(Some(Ok(b))) => out.push(b),
@@ -459,7 +459,7 @@ fn spill_case(report: &Report, seed: u64, idx: u64, rt: &tokio::runtime::Runtime
         match end {
             ReadEnd::Timeout => {
                 report.count("spill.reader_timeouts", 1);
-                report.inconclusive(&format!("spill case {idx}: a reader did not finish within 30 s (wall clock)"));
+                report.inconclusive(&format!("spill case {idx}: a reader did not finish within 120 s (wall clock)"));
             }
             ReadEnd::Err(_) => report.count("spill.reader_ended_with_error", 1),
             ReadEnd::Eof => report.count("spill.reader_ended_cleanly", 1),
@@ -680,7 +680,7 @@ fn chunk_case(report: &Report, seed: u64, idx: u64, rt: &tokio::runtime::Runtime
             }
             (items, pieces, err)
         };
-        match tokio::time::timeout(Duration::from_secs(20), fut).await {
+        match tokio::time::timeout(Duration::from_secs(120), fut).await {
             Ok(x) => Ok(x),
             Err(_) => Err("timeout".to_string()),
         }
@@ -688,7 +688,7 @@ fn chunk_case(report: &Report, seed: u64, idx: u64, rt: &tokio::runtime::Runtime
     let (mut items, pieces, err) = match out {
         Ok(x) => x,
         Err(_) => {
-            report.inconclusive(&format!("chunk case {idx}: {name} did not finish in 20 s"));
+            report.inconclusive(&format!("chunk case {idx}: {name} did not finish in 120 s"));
             report.case(None);
             return;
         }
@@ -792,7 +792,7 @@ pub fn run(args: &Args) -> i32 {
     let selftest = args.extra.contains_key("selftest");
     let report = Report::new(args, "exploration", RULE, (45, 600)).with_min_nontrivial(100);
     report.assume("sender kept alive until all readers finished, except in the early-drop variant where only prefix-exactness is required");
-    report.assume("a reader that does not finish within 30 s of wall clock is inconclusive, not a violation");
+    report.assume("a reader that does not finish within 120 s of wall clock is inconclusive, not a violation");
     std::panic::set_hook(Box::new(|_| {}));
     let dir = match tempfile::Builder::new().prefix("e_io-c41-").tempdir_in("/tmp") {
         Ok(d) => d,
@@ -801,7 +801,7 @@ pub fn run(args: &Args) -> i32 {
             return report.finish();
         }
     };
-    let threads = 12usize;
+    let threads = crate::sink::verif_threads().min(12);
     let max_cases: u64 = args.tier.pick(300_000, 30_000_000);
     let next = std::sync::atomic::AtomicU64::new(0);
     std::thread::scope(|s| {
